@@ -550,6 +550,22 @@ def check_C20(tier):
     return c.finish()
 
 
+def check_C08(tier):
+    c = Ctx("C08", tier)
+    q = tier == "quick"
+    r = c.mc("Canon", "MC_C08.cfg", dict(Deviations="{}", MaxFeatures=1 if q else 2, Emit="Emit"), timeout=600,
+             label="CidAgreement over all CID-reporting APIs; Canonical: an accepted artefact uses no non-canonical encoding feature")
+    for dev in ["LenientCbor", "OuterListNotLen2", "EcdsaMalleable"]:
+        c.mc("Canon", "MC_C08.cfg", dict(Deviations='{"%s"}' % dev, MaxFeatures=1, Emit=""), expect_violation="Canonical",
+             label="the listed finding %s violates Canonical in the model" % dev)
+    c.replay("canon", r.cases, rule="(a) every CID-reporting API on real sealed delegations/invocations of Ed25519, P-256, secp256k1, "
+             "P-384, RSA against a hand-computed CIDv1(dag-cbor, sha2-256); (b) every non-canonical feature (non-minimal head, indefinite "
+             "length, permuted keys, narrower float, undefined-for-null, third envelope element, ECDSA s->n-s, long-form DER) applied by a "
+             "stand-alone CBOR transcoder at every applicable item of its position class, %s; non-trivial = distinct re-encodings" %
+             ("one feature at a time" if q else "up to two features"))
+    return c.finish()
+
+
 CHAIN = {
     "C01": dict(q="MC_C01_q.cfg", t=["MC_C01_t.cfg", "MC_C01_t4.cfg"], dev='{"AudAsSubject"}',
                 rule="every invocation x proof list over principals {A,B,M}(+C), links over all principals, Undef subject and "
@@ -596,7 +612,7 @@ def check_chain(pid):
     return run
 
 
-CHECKS = {"C13": check_C13, "C15": check_C15, "C12": check_C12, "C14": check_C14, "C11": check_C11, "C16": check_C16, "C06": check_envelope("C06"), "C10": check_envelope("C10"), "C07": check_C07, "C17": check_C17, "C18": check_C18, "C19": check_C19, "C20": check_C20}
+CHECKS = {"C13": check_C13, "C15": check_C15, "C12": check_C12, "C14": check_C14, "C11": check_C11, "C16": check_C16, "C06": check_envelope("C06"), "C10": check_envelope("C10"), "C07": check_C07, "C17": check_C17, "C18": check_C18, "C19": check_C19, "C20": check_C20, "C08": check_C08}
 for _p in CHAIN:
     CHECKS[_p] = check_chain(_p)
 
